@@ -318,13 +318,97 @@ def scalarise_globals(g):
     return ok
 
 
+def _pointee_record(x):
+    """record a pointer expression points to, as far as the front end typed it"""
+    x = strip(x)
+    while isinstance(x, dict) and x.get('k') in ('cast', 'load', 'paren'):
+        if x.get('k') == 'cast' and x.get('record'):
+            return x['record']
+        x = strip(x.get('e'))
+    if not isinstance(x, dict):
+        return None
+    if x.get('k') == 'addr':
+        y = strip(x['e'])
+        if isinstance(y, dict) and y.get('k') == 'member':
+            return y.get('trecord') if not y.get('tptr') else None
+        return y.get('record') if isinstance(y, dict) and not y.get('ptr') else None
+    if x.get('k') == 'member':
+        return x.get('trecord') if x.get('tptr') else None
+    if x.get('k') == 'var':
+        return x.get('record') if x.get('ptr') else None
+    return None
+
+
+def open_container_of(prog, x):
+    """`(struct T *)((char *)p - offsetof(struct T, m))` written out (the front end folds offsetof to an integer):
+    the node `container_of(p, T, m)` when T has a member at that byte offset whose record is what p points to
+    (any member at the offset when p's pointee is not typed), else None."""
+    if not (isinstance(x, dict) and x.get('k') == 'cast' and x.get('record')):
+        return None
+    rec = prog.records.get(x['record'])
+    b = x.get('e')
+    while isinstance(b, dict) and b.get('k') in ('load', 'stmtexpr') and 'e' in b:
+        b = b['e']
+    if not (rec and isinstance(b, dict) and b.get('k') == 'bin' and b.get('op') == '-'):
+        return None
+    n = int_of(b['r'])
+    if n is None or n < 0:
+        return None
+    # the left operand must be a byte pointer / integer: a cast of the member pointer to a character pointer type
+    lc = b['l']
+    while isinstance(lc, dict) and lc.get('k') in ('load', 'stmtexpr') and 'e' in lc:
+        lc = lc['e']
+    if not (isinstance(lc, dict) and lc.get('k') == 'cast' and not lc.get('record')):
+        return None
+    to = str(lc.get('to', ''))
+    for w in ('const ', 'unsigned ', 'signed ', 'volatile '):
+        to = to.replace(w, '')
+    if to.strip() not in ('char *', 'void *', 'uint8_t *', 'uintptr_t', 'long', 'size_t'):
+        return None
+    ptr = lc['e']
+    want = _pointee_record(ptr)
+    cands = [fl for fl in rec.get('fields', []) if fl.get('offset') == n]
+    if want is not None:
+        cands = [fl for fl in cands if fl.get('record') == want and not fl.get('ptr')]
+    if not cands:
+        return None
+    return {'k': 'container_of', 'e': ptr, 'record': x['record'], 'member': cands[0]['name']}
+
+
+def fold_container_of(prog, g):
+    """rewrite written-out container_of arithmetic in every event / branch condition of g to container_of nodes"""
+    def r(nd):
+        if isinstance(nd, dict):
+            for k_, v_ in list(nd.items()):
+                if k_.startswith('_') and k_ != '_was':
+                    continue
+                if isinstance(v_, dict):
+                    r(v_)
+                    c = open_container_of(prog, v_)
+                    if c is not None:
+                        nd[k_] = c
+                elif isinstance(v_, list):
+                    for i_, y in enumerate(v_):
+                        if isinstance(y, dict):
+                            r(y)
+                            c = open_container_of(prog, y)
+                            if c is not None:
+                                v_[i_] = c
+    for blk in g.blocks.values():
+        for e in blk.events:
+            r(e)
+        if blk.term:
+            r(blk.term)
+
+
 def inline(prog, f, **kw):
     """Inliner(prog, **kw).inline(f) followed by the local normalisations: cached addresses resolved, scalar members of
-    file-scope structs turned into variables."""
+    file-scope structs turned into variables, written-out container_of arithmetic folded."""
     from ..core import Inliner
     g = Inliner(prog, **kw).inline(f)
     deaddr(g)
     scalarise_globals(g)
+    fold_container_of(prog, g)
     return g
 
 
@@ -433,6 +517,42 @@ def _propagate_copies(env):
             zy = vy == ('c', 0)
             if zx != zy or (isinstance(vx, tuple) and isinstance(vy, tuple)):
                 return None
+    return env
+
+
+def _range_refine(env, env0, atoms, relevant):
+    """Order tests of a tracked scalar variable against small constants (`pid > 0` false, later `ret < 0` with
+    `ret = pid`) that the constant / non-zero domain cannot express are collected per variable in env['#name'] as
+    (op, k) constraints; the conjunction of the constraints, of the variable's abstract value and of the new test is
+    checked over the integer sample domain.  None when the edge is infeasible for this state.  Only removes
+    infeasible paths: a constraint is recorded only when the edge really implies it (norm_cond atoms are conjuncts)."""
+    for (op, lc, rc, l, r) in atoms:
+        if op not in _CMP:
+            continue
+        lv = strip(l)
+        if not (isinstance(lv, dict) and lv.get('k') == 'var' and lv.get('vk') in ('local', 'param', 'global', 'staticlocal')
+                and lv['name'] in relevant):
+            continue
+        rv = aval(r, env0)
+        if not isinstance(rv, tuple) or not isinstance(rv[1], int) or abs(rv[1]) > 10:
+            continue
+        names = {lv['name']}
+        for k_, y in env.items():
+            if k_[:1] == '=' and (k_[1:] in names or y in names):
+                names |= {k_[1:], y}
+        for n_ in names:
+            cs = set(env.get('#' + n_, ())) | {(op, rv[1])}
+            cur = env.get(n_, '?')
+            chk = list(cs)
+            if cur == 'nz':
+                chk.append(('!=', 0))
+            elif isinstance(cur, tuple):
+                if not (isinstance(cur[1], int) and _CMP[op](cur[1], rv[1])):
+                    return None
+                continue
+            if not values_allowed(chk):
+                return None
+            env['#' + n_] = tuple(sorted(cs))
     return env
 
 
@@ -634,6 +754,12 @@ def delta(fn, counters, discr=(), stop=None, call_delta=None, reset=None, maxsta
                 for k_ in [k_ for k_, v_ in env.items() if k_ == '=' + nm or (k_[:1] == '=' and v_ == nm)]:
                     env.pop(k_)
                     dirty = True
+                if env.pop('#' + nm, None) is not None:          # range constraints of the old value
+                    dirty = True
+                src_ = _copied_var(e) if e['op'] == '=' and 'rhs' in e else None
+                if src_ is not None and src_ != nm and nm in relevant and env.get('#' + src_):
+                    env['#' + nm] = env['#' + src_]               # `ret = pid;`: what is known of pid's range holds for ret
+                    dirty = True
                 if nm in relevant:
                     v = aval(e['rhs'], env) if e['op'] == '=' and 'rhs' in e else '?'
                     if v == '?':
@@ -669,7 +795,8 @@ def delta(fn, counters, discr=(), stop=None, call_delta=None, reset=None, maxsta
             if 'fnexpr' in e:
                 # user code may run: file-scope flags, counter values and tested fields may all change
                 env = {k: v for k, v in dict(envk).items()
-                       if k not in globals_seen and not (k[:1] == '=' and v in globals_seen)}
+                       if k not in globals_seen and not (k[:1] == '=' and v in globals_seen)
+                       and not (k[:1] == '#' and k[1:] in globals_seen)}
                 base, sym, live = frozenset(), (), frozenset()
             for a in e.get('args', []):
                 a = strip(a)
@@ -679,6 +806,7 @@ def delta(fn, counters, discr=(), stop=None, call_delta=None, reset=None, maxsta
                         if env is None:
                             env = dict(envk)
                         env.pop(v['name'], None)
+                        env.pop('#' + v['name'], None)
                         for k_ in [k_ for k_, v_ in env.items() if k_ == '=' + v['name'] or (k_[:1] == '=' and v_ == v['name'])]:
                             env.pop(k_)
                         if sym:
@@ -704,6 +832,7 @@ def delta(fn, counters, discr=(), stop=None, call_delta=None, reset=None, maxsta
             if r is not None:
                 if la is not None and r[1]:
                     r = (r[0], tuple(kv for kv in r[1] if kv[0] in la or kv[0] in globals_seen
+                                     or (kv[0][:1] == '#' and (kv[0][1:] in la or kv[0][1:] in globals_seen))
                                      or (kv[0][:1] == '=' and kv[0][1:] in la
                                          and (kv[1] in la or kv[1] in globals_seen)))) + r[2:]
                 out.add(r)
@@ -794,6 +923,8 @@ def delta(fn, counters, discr=(), stop=None, call_delta=None, reset=None, maxsta
                             b2 = b2 | {(i_b, opb, bl[3] - (d[i_b] + bl[1]))}
                             if not values_allowed([(o_, k_) for (i_, o_, k_) in b2 if i_ == i_b]):
                                 dead = True
+            if not dead:
+                dead = _range_refine(env, env0, atoms, relevant) is None
             if dead:
                 continue
             out.add((d, _envkey(env), p2, l2, b2, sym, aux[2](blk, si, ax) if aux else ax))
@@ -1188,9 +1319,11 @@ def origin_defs(g, fam):
 def obj_root_name(x):
     """Name of the local/param an object expression (`t`, `(T *)t`, `&t->list`) is rooted at."""
     while isinstance(x, dict):
-        if '_was' in x:
-            return x['_was']          # a read of this local was replaced by the value it caches (copy propagation)
         k = x.get('k')
+        if '_was' in x and not (k == 'addr' and isinstance(strip(x.get('e')), dict) and strip(x['e']).get('k') == 'member'):
+            # a read of this local was replaced by the value it caches (copy propagation).  Not for a local that cached
+            # the address of a *member* (`lh = &t->list_expired`, resolved by deaddr): the object is the member's base.
+            return x['_was']
         if k == 'var':
             return x['name'] if x.get('vk') in ('local', 'param') else None
         if k == 'member':
